@@ -302,6 +302,10 @@ class Ctx:
                 self.known_hits[hit["id"]] = self.known_hits.get(hit["id"], 0) + 1
             else:
                 self.violations.append(r)
+        if self.violations and os.environ.get("VERIF_EXPLORE_ALL") != "1":
+            # a violation observed on the real code decides the run: the remaining stages could only add more of them (on a tree
+            # that wedges they would also take hours of time-outs).  VERIF_EXPLORE_ALL=1 runs everything regardless.
+            raise Enough()
 
     # ------------------------------------------------------------------ finish
     def sample(self, s, limit=6):
@@ -388,6 +392,10 @@ def load_findings(pid=None):
     return [f for f in _FINDINGS if pid is None or pid in f.get("properties", [f.get("property")])]
 
 
+class Enough(Exception):
+    """raised by Ctx.classify once a violation that no known finding covers has been recorded"""
+
+
 def match_signature(sig, rec):
     """Every key of the signature must be present in the record with an equal value; a
     signature value that is a list means 'one of'."""
@@ -413,7 +421,10 @@ def main(check_fn, pid, level="model_checking"):
     ctx = Ctx(pid, a.tier, level=level)
     ctx.replay = a.replay
     try:
-        check_fn(ctx)
+        try:
+            check_fn(ctx)
+        except Enough:
+            log("stopping early: a violation has been recorded")
         rc = ctx.finish()
     except Infra as e:
         rc = ctx.abort(str(e))
